@@ -1,0 +1,49 @@
+//go:build verif
+// +build verif
+
+package capnp
+
+import "sync/atomic"
+
+// Read-only views for the model-based verification harness (/verif).
+// Compiled only with -tags verif; nothing in the library calls them.
+
+// VerifShape reports the element kind of a list as the encoding's
+// element-size code (0 void, 1 bit, 2..5 = 1/2/4/8 bytes, 6 pointer,
+// 7 composite) together with the element's data size in bytes and
+// pointer count.
+func (p List) VerifShape() (kind int, dataSize int, ptrCount int) {
+	switch {
+	case p.flags&isBitList != 0:
+		kind = 1
+	case p.flags&isCompositeList != 0:
+		kind = 7
+	case p.size.PointerCount == 1 && p.size.DataSize == 0:
+		kind = 6
+	default:
+		switch p.size.DataSize {
+		case 0:
+			kind = 0
+		case 1:
+			kind = 2
+		case 2:
+			kind = 3
+		case 4:
+			kind = 4
+		case 8:
+			kind = 5
+		default:
+			kind = -1
+		}
+	}
+	return kind, int(p.size.DataSize), int(p.size.PointerCount)
+}
+
+// VerifReadLimit returns the remaining traversal budget of the message.
+func (m *Message) VerifReadLimit() uint64 {
+	m.rlimitInit.Do(m.initReadLimit)
+	return atomic.LoadUint64(&m.rlimit)
+}
+
+// VerifDepthLimit returns the remaining depth budget carried by a pointer.
+func (p Ptr) VerifDepthLimit() uint { return p.depthLimit }
